@@ -22,10 +22,17 @@ type Case struct {
 	MaxKeys int    `json:"max_object_keys"`
 }
 
+type (
+	namedS string
+	namedB []byte
+)
+
 func typedParse(err error) bool {
 	var a *size.ParseError[string]
 	var b *size.ParseError[[]byte]
-	return errors.As(err, &a) || errors.As(err, &b)
+	var c *size.ParseError[namedS]
+	var d *size.ParseError[namedB]
+	return errors.As(err, &a) || errors.As(err, &b) || errors.As(err, &c) || errors.As(err, &d)
 }
 
 // judge returns the verdict so that callers can relate cases (permutations).
@@ -70,11 +77,17 @@ func judge(c Case, w *vkit.W) (v Verdict, accepted bool, value uint64) {
 	got, err := size.DefaultParser(input, rule)
 	check("DefaultParser[string]", got, err)
 	accepted, value = err == nil, uint64(got)
-	got, err = size.DefaultParser([]byte(input), rule)
+	got, err = size.DefaultParser(w.Scratch(input), rule) // a reused caller buffer
 	check("DefaultParser[[]byte]", got, err)
+	if v.Accept || len(input) < 4 {
+		got, err = size.DefaultParser(namedS(input), rule)
+		check("DefaultParser[named string]", got, err)
+		got, err = size.DefaultParser(namedB(w.Scratch(input)), rule)
+		check("DefaultParser[named []byte]", got, err)
+	}
 	if rule == size.DefaultRule {
 		s := size.Size(4242)
-		err := s.UnmarshalJSON([]byte(input))
+		err := s.UnmarshalJSON(w.Scratch(input))
 		if err != nil {
 			if s != 4242 {
 				w.Fail(c, "receiver-changed-on-error", fmt.Sprintf("UnmarshalJSON(%q): error %v, receiver %d", input, err, uint64(s)))
@@ -231,6 +244,37 @@ func TestCheck(t *testing.T) {
 		})
 	}
 	r.Exhaustive(fmt.Sprintf("all ordered member lists of length 0..%d over the %d-member palette x 16 rule subsets x MaxObjectKeys {16,0,1,2,3}; truncations and suffixes of all lists of length <= 2", K, np))
+
+	// Phase H: MaxObjectKeys is a setting: the same document is parsed again right after the limit was lowered / raised / disabled.
+	r.Phase("H: histories - the same object re-parsed while MaxObjectKeys changes between the calls", func() {
+		r.Serial(func(w *vkit.W) {
+			good := []string{`"value":1`, `"unit":"kB"`, `"x":1`, `"y":{"value":9,"unit":"MB"}`, `"VALUE":3`, `"Unit":"KiB"`, `"z":[1,2]`}
+			var docs []string
+			for a := range good {
+				for b := range good {
+					if a == b {
+						continue
+					}
+					docs = append(docs, "{"+good[a]+","+good[b]+"}")
+					for c := range good {
+						if c != a && c != b {
+							docs = append(docs, "{"+good[a]+","+good[b]+","+good[c]+"}")
+						}
+					}
+				}
+			}
+			for _, doc := range docs {
+				for _, rule := range []int{6, 4, 14} {
+					for _, mk := range []int{0, 16, 2, 1, 3, 2, 0, 1} {
+						restore := configure(mk)
+						judge(Case{Input: vkit.B(doc), Rule: rule, MaxKeys: mk}, w)
+						w.EvalRandom(vkit.Hash64(doc, strconv.Itoa(rule), strconv.Itoa(mk), "h"), true)
+						restore()
+					}
+				}
+			}
+		})
+	})
 
 	// Phase B: top-level scalars and strings x 16 rules
 	r.Phase("B: numbers, strings (with escapes), literals, arrays x 16 rules + truncations/suffixes", func() {
